@@ -53,7 +53,8 @@ def run(ctx):
                        'name cache (argued by C14-cache)')
                 continue
             # a container that is only ever appended to cannot influence a result
-            only_append = bool(e['refs']) and all(_is_append(r['node']) for r in e['refs'])
+            only_append = bool(e['refs']) and any(_is_append(r['node']) for r in e['refs']) and \
+                all(_is_append(r['node']) or _is_lazy_creation(r['node'], d) for r in e['refs'])
             ctx.check(only_append, 'C14-inventory', '%s : %s' % (e['qn'], e['type']), e['pos'],
                       'mutable static state that is read back: results may depend on earlier calls; it needs '
                       'its own invisibility argument', construct='state:%s' % e['qn'],
@@ -248,6 +249,44 @@ def _is_append(node):
             c = callee(a)
             return bool(c and c[0] == 'method' and c[1] in ('push_back', 'emplace_back'))
         if a.get('kind') in ('CompoundStmt', 'DeclStmt', 'BinaryOperator', 'ReturnStmt', 'IfStmt'):
+            return False
+    return False
+
+
+def _is_lazy_creation(node, d):
+    """The reference is part of `if (p == nullptr) p = new T;`: the null test of a pointer that guards nothing but the
+    creation of the (empty) object it then points to, or that creation itself."""
+    did = d.get('id')
+
+    def fresh_assign(st):
+        st = peel(st)
+        while st is not None and st.get('kind') in ('CompoundStmt', 'ExprWithCleanups') and len(kids(st)) == 1:
+            st = peel(kids(st)[0])
+        if st is None or st.get('kind') != 'BinaryOperator' or st.get('opcode') != '=':
+            return False
+        l, r = peel(kids(st)[0]), peel(kids(st)[1])
+        if (l.get('referencedDecl') or {}).get('id') != did or r.get('kind') != 'CXXNewExpr':
+            return False
+        # new T / new T() / new T{}: nothing carried in
+        return not any(y.get('kind') == 'DeclRefExpr' for y in walk(r))
+    for a in ancestors(node):
+        if a.get('kind') == 'BinaryOperator' and a.get('opcode') == '=':
+            return fresh_assign(a) and (peel(kids(a)[0]) is node or any(y is node for y in walk(kids(a)[0])))
+        if a.get('kind') == 'IfStmt':
+            ks = kids(a)
+            cond = ks[0]
+            if not any(y is node for y in walk(cond)) or len(ks) != 2:
+                return False
+            c = peel(cond)
+            isnull = False
+            if c.get('kind') == 'BinaryOperator' and c.get('opcode') == '==':
+                o = [peel(k_) for k_ in kids(c)]
+                isnull = any((x_.get('referencedDecl') or {}).get('id') == did for x_ in o) and \
+                    any(x_.get('kind') in ('CXXNullPtrLiteralExpr', 'GNUNullExpr') or (x_.get('kind') == 'IntegerLiteral' and x_.get('value') == '0') for x_ in o)
+            elif c.get('kind') == 'UnaryOperator' and c.get('opcode') == '!':
+                isnull = (peel(kids(c)[0]).get('referencedDecl') or {}).get('id') == did
+            return isnull and fresh_assign(ks[1])
+        if a.get('kind') in ('CompoundStmt', 'DeclStmt', 'ReturnStmt', 'CallExpr', 'CXXMemberCallExpr'):
             return False
     return False
 
